@@ -145,6 +145,10 @@ func runC13Random(ctx *Ctx, idx int) Result {
 		ValClass: gen.ValsMixed, Prio: reg, Mix: mixC13, CustomCmp: r.P(30)}
 	if hc.CustomCmp {
 		hc.KeyClass = gen.KeysDigits
+	} else if r.P(15) {
+		// long non-periodic keys: a key mangled on re-load breaks the search order
+		hc.KeyClass, hc.NKeys, hc.Steps = gen.KeysLong, r.Range(5, 16), r.Range(40, 120)
+		ctx.Stats["c13.long-key-cases"]++
 	}
 	h := NewHist(r, cfg, hc, fmt.Sprintf("c13r-%d", idx))
 	e := h.E
